@@ -151,6 +151,9 @@ func (g *G) stringOrList(l L) any {
 }
 
 func (g *G) extValue(depth int) any {
+	if depth > 0 && g.R.Intn(12) == 0 {
+		return nil // `x-foo:` without a value
+	}
 	switch g.R.Intn(5) {
 	case 0:
 		return g.text()
